@@ -39,7 +39,8 @@ def add_override(rng, doc, what):
         val = rng.choice(["public", "public private", "public protected private", "none", "private public"])
         vals = val.split()
         # multi-valued metadata: one value per (continuation) line
-        lines = [f"display: {vals[0]}"] + [f"    {v}" for v in vals[1:]]
+        sp = lambda v: rng.choice([v, v, v.capitalize(), v.upper()])  # noqa: E731  (the values are not case sensitive)
+        lines = [f"display: {sp(vals[0])}"] + [f"    {sp(v)}" for v in vals[1:]]
         if rng.random() < 0.5:
             lines.append("")
         doc[0:0] = lines
